@@ -722,7 +722,10 @@ class rrule(rrulebase):
         if self._interval != 1:
             parts.append('INTERVAL=' + str(self._interval))
 
-        if self._wkst:
+        # A Monday week start is the RFC default and is left out, unless this
+        # process's calendar.firstweekday() is not Monday: rrule() would then
+        # give the reparsed rule that week start instead.
+        if self._wkst or calendar.firstweekday():
             parts.append('WKST=' + repr(weekday(self._wkst))[0:2])
 
         if self._count is not None:
